@@ -16,6 +16,12 @@ import (
 
 const eps = vrt.Eps64
 
+// subFloor is the absolute floor added (times the dimension) to the
+// denominators of reconstruction identities: a result in the subnormal range
+// is spaced 2^-1074 apart whatever its magnitude, so products and sums there
+// carry an absolute rounding error of that size. Negligible for normal data.
+const subFloor = 16 * 5e-324
+
 // lwClass is the workspace-length class of a call with an lwork parameter.
 type lwClass int
 
